@@ -14,7 +14,7 @@ TRUST = (
 CHECKS = {
     "C14": dict(
         technique="static analysis: who-may-read/who-may-raise confinement over all attribute/raise sites + save/restore pairing + must-pass-through dataflow on a hand-built CFG",
-        text="Every access to Parser.error_level/errors and Generator.unsupported_level/unsupported_messages in the package lies in the reporting funnel and level-guarded branches only report; the temporary level switch in _try_parse is restored in finally; UnsupportedError is raised only through the generator funnel or under transforms.preprocess; check_errors() post-dominates every top-level parse call. These are the mechanisms by which the code enforces C14; the run-time relation between the four levels is not executed.",
+        text="Every access to Parser.error_level/errors and Generator.unsupported_level/unsupported_messages in the package lies in the reporting funnel and level-guarded branches only report; the temporary level switch in _try_parse is restored in finally; UnsupportedError is raised only through the generator funnel or under transforms.preprocess; check_errors() post-dominates every top-level parse call; generators that delegate to other generators (Athena) thread every generation option, including unsupported_level, to their delegates. These are the mechanisms by which the code enforces C14; the run-time relation between the four levels is not executed.",
         ref="DESIGN.md section 4 / C14",
     ),
 }
@@ -33,7 +33,7 @@ CHECKS["C18"] = dict(
 
 CHECKS["C08"] = dict(
     technique="static analysis: who-may-write enumeration of every store to the tree representation with alias-tracked child lists, shape checks of the primitives, cross-reference of the import-introspected shared-Expr inventory with every syntactic reference",
-    text="The parent/arg_key/index/hash invariant is kept by a handful of primitives; the check enumerates every other store to the representation in the whole package (args items, pointer fields, _hash, raw list mutation of child lists incl. local aliases) and requires each to be a primitive, a provably sound form, or a reviewed exception; checks invalidate-before-write in set/append and unfiltered mirroring in __deepcopy__; and classifies every reference to a process-wide Expr instance as read/copy/compare vs embedding. Breaking the invariant from outside the primitives requires one of the flagged constructs; index arithmetic inside the primitives is trusted.",
+    text="The parent/arg_key/index/hash invariant is kept by a handful of primitives; the check enumerates every other store to the representation in the whole package (args items, pointer fields, _hash, raw list mutation of child lists incl. local aliases) and requires each to be a primitive, a provably sound form, or a reviewed exception; checks invalidate-before-write in set/append and unfiltered mirroring in __deepcopy__; and classifies every reference to a process-wide Expr instance as read/copy/compare vs embedding. Also: the same `*args` nodes are not embedded twice (on one path or once per loop iteration) without a copy, and leaf classes (is_primitive, whose constructor links no children) are never constructed around a node. Breaking the invariant from outside the primitives requires one of the flagged constructs; index arithmetic inside the primitives is trusted.",
     ref="DESIGN.md section 4 / C08",
 )
 
@@ -45,30 +45,30 @@ CHECKS["C20"] = dict(
 
 CHECKS["C15"] = dict(
     technique="static analysis: typed lint (mypy as a library) locating every iteration over a set-typed expression and classifying its consumer; sibling agreement __init__/reset; finally-protected state toggles; who-may-write inventory of process-wide state; table-ownership facts from import introspection",
-    text="Hash-seed dependence enters only through iteration order of sets (str/Enum/Expr hashes vary with the seed): every such iteration in the package (mypy-typed, 180+ sites) must feed an order-insensitive consumer or a reviewed site. Dependence on earlier calls enters only through per-instance state that is not reset (checked by __init__/reset agreement and by finally/re-initialisation of every Generator attribute written during generation) or through process-wide state (closed who-may-write inventory, fresh containers in class bodies, TRANSFORMS ownership, no embedding of shared nodes). Any-typed iterables and second-order dict orders are outside the rule and stated as assumptions.",
+    text="Hash-seed dependence enters only through iteration order of sets (str/Enum/Expr hashes vary with the seed): every such iteration in the package (mypy-typed, 180+ sites) must feed an order-insensitive consumer or a reviewed site. Dependence on earlier calls enters only through per-instance state that is not reset (checked by __init__/reset agreement and by finally/re-initialisation of every Generator attribute written during generation) or through process-wide state (closed who-may-write inventory, fresh containers in class bodies, TRANSFORMS ownership, no embedding of shared nodes). Class-body set displays without a static type, list[T](set) conversions and keyed Expression.set(<element>) insertions are covered; generator classes that copy a parent's TRANSFORMS must be pruned by their own dialect or explicitly (import-order independence). Any-typed iterables and second-order dict orders are outside the rule and stated as assumptions.",
     ref="DESIGN.md section 4 / C15",
 )
 
 CHECKS["C12"] = dict(
     technique="static analysis: writer/reader key-set agreement of the wire format, per-slot coverage of Expression.__slots__ (import introspection) by dump/load/__deepcopy__, typed JSON-safety lint (mypy as a library) over meta stores and constructor arguments",
-    text="dump and load/_load must agree on the set of payload keys; every slot of Expression must be read by dump, restored by load (links through set/append) and copied by __deepcopy__, so a newly added field cannot be silently dropped; every value stored into meta (and, thorough tier, every non-expression constructor/set argument, 4000+ sites) must have a JSON-representable static type or be an expression that dump encodes; pickle must delegate to the same pair. Decides field coverage and JSON-safety structurally; value-level round trips are not executed.",
+    text="dump and load/_load must agree on the set of payload keys; every slot of Expression must be read by dump, restored by load (links through set/append) and copied by __deepcopy__, so a newly added field cannot be silently dropped; every value stored into meta (and, thorough tier, every non-expression constructor/set argument, 4000+ sites) must have a JSON-representable static type or be an expression that dump encodes; pickle must delegate to the same pair. The DType codec must agree between dump (.value/.name) and _load (call/subscript), and nothing on the serialisation path may be memoised on expression-typed parameters (tree equality ignores comments, meta, case). Decides field coverage and JSON-safety structurally; value-level round trips are not executed.",
     ref="DESIGN.md section 4 / C12",
 )
 
 CHECKS["C13"] = dict(
     technique="static analysis: symbolic (linear normal form) check of the scanner's cursor invariant on every block that writes the offset, keyword/field agreement of the token stamp, inclusive-end convention lint at every consumer",
-    text="The tokenizer keeps _char/_peek/_end/_col consistent with _current by hand in three places (_advance, its alnum batch, the str.find string fast path); each block that writes _current must re-establish the three equalities with symbolically equal expressions and move the column in lockstep, so an off-by-one in a fast path is caught without running it. Token stamps, every slice/adjacency/highlight consumer of the inclusive end, TokenError's own slice and same-token error reporting are shape-checked. Tiling of the input by tokens is not decided.",
+    text="The tokenizer keeps _char/_peek/_end/_col consistent with _current by hand in three places (_advance, its alnum batch, the str.find string fast path); each block that writes _current must re-establish the three equalities with symbolically equal expressions and move the column in lockstep, so an off-by-one in a fast path is caught without running it. The string fast path must count exactly the line breaks _advance counts (count-term vector incl. CR LF pairing) and restart the column after the last of them. Token stamps, every slice/adjacency/highlight consumer of the inclusive end, TokenError's own slice and same-token error reporting are shape-checked. Tiling of the input by tokens is not decided.",
     ref="DESIGN.md section 4 / C13",
 )
 
 CHECKS["C10"] = dict(
     technique="static analysis: typestate of the straight-line qualify() pipeline (stage order, threading, guards, defaults) and error-family resolution of every raise in the qualification modules",
-    text="A thin, exact necessary condition: qualify() must run normalize_identifiers, qualify_tables, [isolate_table_selects], qualify_columns, quote_identifiers, validate in that order on one threaded variable, each optional stage behind its own flag with the documented defaults and the resolved dialect/schema passed on; every explicit raise in the qualification modules must be a SqlglotError subclass. Completeness, idempotence, star order and case rules are run-time valued and are NOT decided by this check.",
+    text="A thin, exact necessary condition: qualify() must run normalize_identifiers, qualify_tables, [isolate_table_selects], qualify_columns, quote_identifiers, validate in that order on one threaded variable, each optional stage behind its own flag with the documented defaults and the resolved dialect/schema passed on; every explicit raise in the qualification modules must be a SqlglotError subclass. Completeness, idempotence, star order and case rules are run-time valued and are NOT decided by this check. Scope.branch must give the inner scope's CTE definitions precedence over inherited ones (closed set of merge forms; an unrecognised form is reported as not decided).",
     ref="DESIGN.md section 4 / C10",
 )
 CHECKS["C07"] = dict(
     technique="static analysis: pairing/post-domination of the line-break sentinel, injectivity of the substitution, flow confinement of comment text to maybe_comment, block-comment-only emission lint",
-    text="Decides the two explicit clauses of C07 that are structural: pretty output cannot contain the sentinel and plain output cannot be altered by it (single guarded insertion/removal pair, removal before every return, overrides delegate), and comments=False emits no comment text / comments cannot swallow SQL (comment text flows only into maybe_comment, which short-circuits on self.comments; only block comments, sanitised on both markers). One genuine defect (sentinel collision with user text under pretty) is recorded as a known finding. Whether pretty/pad/indent/leading_comma/max_text_width affect whitespace only is semantic and not decided.",
+    text="Decides the two explicit clauses of C07 that are structural: pretty output cannot contain the sentinel and plain output cannot be altered by it (single guarded insertion/removal pair, removal before every return, overrides delegate), and comments=False emits no comment text / comments cannot swallow SQL (comment text flows only into maybe_comment, which short-circuits on self.comments; only block comments, sanitised on both markers). In the emitters of text-bearing leaves (literal, identifier, raw/unicode/byte/national string) the text wrapped in quote delimiters must have passed _replace_line_breaks on every path (must-dataflow), so pretty printing never pads the continuation lines of a literal. One genuine defect (sentinel collision with user text under pretty) is recorded as a known finding. Whether pretty/pad/indent/leading_comma/max_text_width affect whitespace only is semantic and not decided.",
     ref="DESIGN.md section 4 / C07",
 )
 
@@ -92,7 +92,7 @@ CHECKS["C05"] = dict(
 
 CHECKS["C09"] = dict(
     technique="static analysis: ownership/effect classification of every use of a borrowed tree in functions with a copy flag, dominance of copy-before-use at the non-mutating entry points, ownership of receivers at copy=False call sites",
-    text="In each of the ~100 functions with a copy parameter, every use of the caller's tree (self of expression methods; parameters handed on with copy=copy) is classified and must be a read, a copy or a threaded pass-on; generate() must copy before use with default True and every public route must thread it; optimize() must feed its rules only from maybe_parse(copy=True); transform/expand/replace_*/lineage must copy or thread; __deepcopy__ must create fresh nodes and deep-copy comments/type/meta; copy=False call sites outside the in-place layers must act on owned trees. This is the discipline on which 'non-mutating APIs leave arguments untouched' rests; mutations performed by *_sql methods on generate()'s private copy are not enumerated.",
+    text="In each of the ~100 functions with a copy parameter, every use of the caller's tree (self of expression methods; parameters handed on with copy=copy) is classified and must be a read, a copy or a threaded pass-on; generate() must copy before use with default True and every public route must thread it; optimize() must feed its rules only from maybe_parse(copy=True); transform/expand/replace_*/lineage must copy or thread; __deepcopy__ must create fresh nodes and deep-copy comments/type/meta; copy=False call sites outside the in-place layers must act on owned trees. This is the discipline on which 'non-mutating APIs leave arguments untouched' rests; mutations performed by *_sql methods on generate()'s private copy are not enumerated. Sub-trees read out of the caller's tree before it is copy-guarded must not be embedded into new nodes (taint from borrowed parameter to constructor/set/append arguments).",
     ref="DESIGN.md section 4 / C09",
 )
 
